@@ -1,6 +1,7 @@
 package sym
 
 import (
+	"crypto/md5"
 	"fmt"
 	"go/types"
 	"math"
@@ -279,6 +280,64 @@ func registerIntrinsics(P *Program) {
 		}
 		return out
 	}
+	// crypto/md5 (assembly block function): computed concretely
+	in["crypto/md5.Sum"] = func(fr *frame, args []Value) Value {
+		m := fr.m
+		in := args[0].([]Value)
+		buf := make([]byte, len(in))
+		for i, v := range in {
+			t := v.(*Term)
+			if !t.IsConst() {
+				m.unsupported("md5 of symbolic data")
+			}
+			buf[i] = byte(t.Val)
+		}
+		sum := md5.Sum(buf)
+		out := make(Array, 16)
+		for i := range out {
+			out[i] = m.tb.Const(8, uint64(sum[i]))
+		}
+		return out
+	}
+	// security.NewID: process-wide counter seeded from the clock -> per-path concrete counter
+	in["github.com/cnotch/ipchub/provider/security.NewID"] = func(fr *frame, args []Value) Value {
+		m := fr.m
+		n, _ := m.side["security.nextid"].(uint64)
+		if n == 0 {
+			n = 100000
+		}
+		n++
+		m.side["security.nextid"] = n
+		return m.tb.Const(64, n)
+	}
+	// write-rate limiter (clock arithmetic with 64-bit multiplications): by default the
+	// limiter never asks for buffering; checks that depend on it stub it as "fresh"
+	in["(*github.com/kelindar/rate.Limiter).Limit"] = func(fr *frame, args []Value) Value {
+		fr.m.StubsUsed["(*rate.Limiter).Limit -> false"] = true
+		return fr.m.tb.False()
+	}
+	// sort.Slice / SliceStable / SliceIsSorted (reflection-based swapper): insertion sort
+	// driven by the less closure
+	sortSlice := func(fr *frame, args []Value) Value {
+		m := fr.m
+		itf := args[0].(Iface)
+		sl, ok := itf.V.([]Value)
+		if !ok {
+			m.unsupported("sort.Slice on %T", itf.V)
+		}
+		less := func(i, j int) bool {
+			r := m.call(fr, m.curPos, args[1], []Value{m.tb.Const(64, uint64(i)), m.tb.Const(64, uint64(j))})
+			return m.branch(r.(*Term))
+		}
+		for i := 1; i < len(sl); i++ {
+			for j := i; j > 0 && less(j, j-1); j-- {
+				sl[j], sl[j-1] = sl[j-1], sl[j]
+			}
+		}
+		return nil
+	}
+	in["sort.Slice"] = sortSlice
+	in["sort.SliceStable"] = sortSlice
 	// murmur hash (unsafe pointer arithmetic): opaque value, only used to derive file names
 	murmurStub := func(fr *frame, args []Value) Value {
 		return fr.m.tb.Const(32, 0x5eed5eed)
